@@ -168,7 +168,7 @@ impl G {
                     cases: vec![
                         (vec![CaseExpr::Range(num(0), num(1))], a),
                         (vec![CaseExpr::Is(BinOp::Gt, num(5))], bb),
-                        (vec![CaseExpr::Simple(num(2)), CaseExpr::Simple(num(3))], cc),
+                        (vec![CaseExpr::Simple(num(2)), CaseExpr::Range(num(3), num(3)), CaseExpr::Simple(num(4))], cc),
                     ],
                     els: Some(e),
                 })]
@@ -287,6 +287,27 @@ fn reid_block(stmts: &[Stmt], b: &mut B) -> Vec<Stmt> {
             b.s(k)
         })
         .collect()
+}
+
+/// One program out of a header (types, subs), prelude statements and several snippets.
+pub fn assemble_with(header: &Prog, prelude: &dyn Fn(&mut B) -> Vec<Stmt>, snips: &[&Snip]) -> Prog {
+    let mut b = B::new();
+    // keep the ids of the header's statements distinct from the new ones
+    let mut max_id = 0;
+    header.walk(&mut |s| max_id = max_id.max(s.id));
+    for s in &header.subs {
+        max_id = max_id.max(s.id);
+    }
+    for _ in 0..=max_id {
+        b.id();
+    }
+    let mut main = prelude(&mut b);
+    for s in snips {
+        main.extend(reid_block(&s.stmts, &mut b));
+    }
+    let mut p = header.clone();
+    p.main = main;
+    p
 }
 
 /// One program out of several snippets (fresh statement ids).
@@ -457,6 +478,12 @@ pub fn axis_b_depth2() -> Vec<Snip> {
                                 bin(op2, Expr::Paren(Box::new(bin(op1, a.clone(), bb.clone()))), c.clone()),
                             ];
                             for (sidx, e) in shapes.into_iter().enumerate() {
+                                // R22: a quotient is not an operand of further arithmetic
+                                let inner = if sidx == 0 { op2 } else { op1 };
+                                let outer = if sidx == 0 { op1 } else { op2 };
+                                if inner == BinOp::Div && matches!(outer, BinOp::Add | BinOp::Sub | BinOp::Mul | BinOp::Div | BinOp::Mod) {
+                                    continue;
+                                }
                                 let mut b = B::new();
                                 let stmts = vec![b.print(vec![e])];
                                 out.push(Snip {
